@@ -580,7 +580,7 @@ func vpC35GenHistory(t *rapid.T) *vpC35History {
 		last := i == n-1
 		k := rapid.IntRange(0, 11).Draw(t, "kind")
 		switch {
-		case k <= 3:
+		case k <= 2:
 			r.kind = "mp-cl"
 		case k <= 6:
 			r.kind = "mp-chunked"
@@ -597,7 +597,7 @@ func vpC35GenHistory(t *rapid.T) *vpC35History {
 		}
 		if strings.HasPrefix(r.kind, "mp-") {
 			r.form = vpC35GenForm(t, rapid.IntRange(0, 9).Draw(t, "allowBig") == 0)
-			if rapid.IntRange(0, 2).Draw(t, "forceSpill") == 0 && len(r.form.files) == 0 {
+			if rapid.IntRange(0, 1).Draw(t, "forceSpill") == 0 && r.form.maxFile() <= 8192 {
 				r.form.files = append(r.form.files, vpC35File{field: "up", filename: "big.bin", size: 8193 + rapid.IntRange(0, 3000).Draw(t, "spillExtra"), seed: 7})
 			}
 			// the body the client sends is produced by fasthttp.WriteMultipartForm from a form parsed by mime/multipart
